@@ -1,6 +1,7 @@
 (* C19 — the property for the deviceshare ledger: after a restart the allocateSet lists exactly
    the bound objects' device allocations as written, every device's used amount is the sum of the
-   listed allocations and its free amount is total - used (so no device share that was taken is free). *)
+   listed allocations and its free amount is total - used, and a virtual function is taken exactly
+   when a listed allocation carries it (so no device share that was taken is free). *)
 From Coq Require Import List ZArith Bool.
 From Verif Require Import C19.Model C19.ModelRsv C19.ModelDev C19.Spec.
 Import ListNotations.
@@ -36,19 +37,33 @@ Definition used_from (aset : list (option (list (Z * (Z * Z))))) (np : nat) (t m
                 end) (0, 0)
              (combine (flat_map (fun u => map (fun t' => (u, t')) types12) (zrange 1 np)) aset).
 
+(* is the virtual function (t, code) carried by one of the listed allocations? *)
+Definition vf_from (ds : list ddesc) (aset : list (option (list (Z * (Z * Z))))) (np : nat) (t code : Z) : bool :=
+  existsb (fun ka => match snd ka with
+                     | Some _ => (snd (fst ka) =? t) && memZ code (vfs_of (ddesc_of ds (fst (fst ka))) t)
+                     | None => false
+                     end)
+          (combine (flat_map (fun u => map (fun t' => (u, t')) types12) (zrange 1 np)) aset).
+
 Definition dsnap_code (c : dcase) (life : Z -> Z) (live : bool) (node : Z) (s : dsnap) : Z :=
   let ds := d_descs c in
   let np := length ds in
   let keys := flat_map (fun u => map (fun t => (u, t)) types12) (zrange 1 np) in
   let devs := flat_map (fun t => map (fun m => (t, m)) (zrange 0 (Z.to_nat (d_minors c)))) types12 in
-  if negb (Nat.eqb (length (ds_aset s)) (length keys) && Nat.eqb (length (ds_devs s)) (length devs)) then 9 else
+  let vfk := flat_map (fun t => flat_map (fun m => map (fun i => (t, m * 100 + i)) (zrange 0 (Z.to_nat (d_nvf c))))
+                                         (zrange 0 (Z.to_nat (d_minors c)))) types12 in
+  if negb (Nat.eqb (length (ds_aset s)) (length keys) && Nat.eqb (length (ds_devs s)) (length devs)
+           && Nat.eqb (length (ds_vfs s)) (length vfk)) then 9 else
   let cl := first_nz (map (fun ka => aset_clause (dexpect ds life live node (fst (fst ka)) (snd (fst ka))) (snd ka))
                           (combine keys (ds_aset s))) in
   if negb (cl =? 0) then cl else
   if negb (forallb (fun de => eq_pair (fst (snd de)) (used_from (ds_aset s) np (fst (fst de)) (snd (fst de))))
                    (combine devs (ds_devs s))) then 4 else
   if negb (forallb (fun de => eq_pair (snd (snd de)) (pair_sub0 (dtotal c (fst (fst de))) (fst (snd de))))
-                   (combine devs (ds_devs s))) then 5
+                   (combine devs (ds_devs s))) then 5 else
+  (* 7: a virtual function's taken bit is not what the listed allocations say *)
+  if negb (forallb (fun kb => snd kb =? (if vf_from ds (ds_aset s) np (fst (fst kb)) (snd (fst kb)) then 1 else 0))
+                   (combine vfk (ds_vfs s))) then 7
   else 0.
 Definition dsnapshot_code (c : dcase) (life : Z -> Z) (live : bool) (s : list dsnap) : Z :=
   if negb (Z.of_nat (length s) =? d_nodes c) then 9
@@ -65,10 +80,14 @@ Definition group_ok (g : Z * list (Z * (Z * Z))) : bool :=
   && forallb (fun e => (0 <=? fst e) && (fst e <? 1000) && (0 <=? fst (snd e)) && (0 <=? snd (snd e))) (snd g).
 Fixpoint nodup_types (gs : list (Z * list (Z * (Z * Z)))) : bool :=
   match gs with [] => true | g :: t => negb (existsb (fun g' => fst g' =? fst g) t) && nodup_types t end.
+Fixpoint nodupZ (l : list Z) : bool :=
+  match l with [] => true | x :: t => negb (memZ x t) && nodupZ t end.
+Definition vfgroup_ok (x : Z * list Z) : bool :=
+  ((fst x =? 1) || (fst x =? 2)) && nodupZ (snd x) && forallb (fun c => (0 <=? c) && (c <? 100000)) (snd x).
 Definition ddesc_ok (d : ddesc) : bool :=
-  (1 <=? dd_node d) && forallb group_ok (dd_groups d) && nodup_types (dd_groups d).
+  (1 <=? dd_node d) && forallb group_ok (dd_groups d) && nodup_types (dd_groups d) && forallb vfgroup_ok (dd_vfs d).
 Definition dcase_ok (c : dcase) : bool :=
-  forallb ddesc_ok (d_descs c) && (0 <=? d_nodes c) && (0 <=? d_minors c).
+  forallb ddesc_ok (d_descs c) && (0 <=? d_nodes c) && (0 <=? d_minors c) && (0 <=? d_nvf c) && (d_nvf c <=? 100).
 
 Definition nontrivial_dev (c : dcase) : bool :=
   existsb (fun life => existsb (fun u => (life u =? 2) && negb (is_nil (dd_groups (ddesc_of (d_descs c) u))))
